@@ -346,7 +346,9 @@ class FeArray(np.ndarray):
         _parent = getattr(np.ndarray, _name)
 
         def _reducer(self, *args, **kwargs):
-            res = _parent(self, *args, **kwargs)
+            # reduce the plain array: numpy builds var/std from arithmetic on intermediate
+            # (keepdims) arrays, which must not be re-read as (Ne, nPg) fields
+            res = _parent(_Base(self), *args, **kwargs)
             axis = kwargs.get("axis", args[0] if args else None)
             if _KeepsFeAxes(axis, self.ndim) and getattr(res, "ndim", 0) >= 2:
                 return res.view(FeArray)
